@@ -490,6 +490,7 @@ class _MissingImportFinder:
             # but do treat existing imports as 'used' if they are used in
             # doctests.  The linenos are currently wrong, but we don't use
             # them so it's not important to fix.
+            n_unused_before_doctests = len(self.unused_imports)
             for block in doctest_blocks:
                 # There are doctests.  Parse them.
                 # Doctest blocks inherit the global scope after parsing all
@@ -502,6 +503,10 @@ class _MissingImportFinder:
                 # in a doctest, so this is low priority to fix.
                 with self._NewScopeCtx(check_unused_imports=False):
                     self._scan_node(block.ast_node)
+            # Imports made inside doctests are never reported as unused: their
+            # line numbers are relative to the doctest, and acting on them
+            # would remove whatever top-level import sits on that line.
+            del self.unused_imports[n_unused_before_doctests:]
             # Find literal brace identifiers like "... `Foo` ...".
             # TODO: Do this inline: (1) faster; (2) can use proper scope of vars
             # Once we do that, use _check_load() with new args
